@@ -250,6 +250,60 @@ def run(ctx):
                               'KeepAlive) around another listener: calls %r, registration order gives %r'
                               % ('early' if early else 'ordinary', 'outgoing' if outgoing else 'incoming', calls, want),
                               {'early': early, 'outgoing': outgoing, 'calls': calls}, key={'kind': 'same-callable', 'early': early, 'outgoing': outgoing})
+    # ---- a queued packet whose write fails (the peer is gone) while a server disconnect is already readable: the
+    # library forgives the write error and flushes on disconnect; every outgoing listener still runs at most once
+    # per packet
+    for variant in range(ctx.scale(4, 12)):
+        counts = {}
+        cfg = {'version': V, 'script': [('success',), ('keepalive', 5)]}
+        orig_send = simnet.FakeSocket.send
+        state = {'skip': 10 ** 9, 'fails': 0}
+
+        def failing_send(self_, data):
+            if state['skip'] > 0:
+                state['skip'] -= 1
+            elif state['fails'] > 0:
+                state['fails'] -= 1
+                raise BrokenPipeError(32, 'Broken pipe')
+            return orig_send(self_, data)
+
+        class KickServer(RefServer):
+            """answers the client's keep-alive reply with a play-state disconnect"""
+            def handle(self, pid, payload):
+                if self.state == 'play' and pid == rp.packet_id('keep_alive_sb', V):
+                    self.send_packet(rp.packet_id('disconnect_play', V), rc.string('{"text":"bye"}'))
+                    return
+                return RefServer.handle(self, pid, payload)
+        simnet.FakeSocket.send = failing_send
+        try:
+            with simnet.Net(lambda s: KickServer(s, cfg)) as net:
+                conn = C.Connection('h', 1, username='u', allowed_versions={V}, handle_exception=lambda e, i: counts.setdefault('exc', []).append(repr(e)))
+
+                def count_early(pkt):
+                    counts[('early', id(pkt))] = counts.get(('early', id(pkt)), 0) + 1
+
+                def count_late(pkt):
+                    counts[('late', id(pkt))] = counts.get(('late', id(pkt)), 0) + 1
+                pks = [sb.play.ChatPacket(message='m%d' % k) for k in range(1 + variant % 3)]
+
+                def on_keepalive(pkt):
+                    # on the networking thread, after the built-in reaction queued its reply: queue our packets;
+                    # the two sends of the keep-alive reply still pass, from then on the peer is gone
+                    for pk in pks:
+                        conn.write_packet(pk)
+                    state['skip'], state['fails'] = 2, 1 + variant // 3 % 2
+                conn.register_packet_listener(count_early, sb.play.ChatPacket, outgoing=True, early=True)
+                conn.register_packet_listener(count_late, sb.play.ChatPacket, outgoing=True)
+                conn.register_packet_listener(on_keepalive, cb.play.KeepAlivePacket)
+                conn.connect()
+                net.run_threads()
+        finally:
+            simnet.FakeSocket.send = orig_send
+        ctx.case(('write-fails-then-disconnect', variant))
+        worst = max([n for k, n in counts.items() if isinstance(k, tuple)] or [0])
+        if worst > 1:
+            ctx.violation('a queued packet whose write failed was offered to an outgoing listener %d times (write error, then the '
+                          'flush of the server-initiated disconnect)' % worst, {'variant': variant}, key={'kind': 'write-fails-then-disconnect'})
     # ---- an early listener that ignores Set Compression suppresses the built-in reaction: compression stays
     # off, and it is still off while the early listener runs
     for state in ('login',):
